@@ -22,7 +22,7 @@
    rope's type inference).  C02_query_independent is proved at full strength, for every token and every module. *)
 From Coq Require Import List NArith Bool.
 From RopeVerif.C15 Require Import Syntax Scoping RopeScopes Fragment.
-From RopeVerif.C02 Require Import Occurrences OccurrencesProofs Witnesses Theorems.
+From RopeVerif.C02 Require Import Occurrences OccurrencesProofs Witnesses Theorems Project ProjectProofs ProjectTheorems.
 Import ListNotations.
 
 (* Inside the domain, the PyName rope's chain of ifs computes for a core token is exactly the PyName owned by
@@ -200,3 +200,45 @@ Example C02_example_occurrences :
   /\ example_occs 123 = Some [123; 125]%N.
 Proof. exact example_occurrences. Qed.
 Print Assumptions C02_example_occurrences.
+
+(* ------------------------------------------------------------------ two-module projects (coq/C02/Project.v) *)
+(* In a project of two modules in which the imports of lib resolve (ImportedModule / ImportedName transparent,
+   same_pyname's import clause comparing what the two PyNames resolve to, attributes of the imported module and
+   keyword arguments of imported defs / classes evaluated in lib's tree), the occurrence set collected over both
+   files does not depend on the occurrence used to ask, in whichever module it stands: for every pair of modules,
+   token list and token (no domain hypothesis).  The model is compared with rope on every run (multi stream);
+   rope itself violates the statement where two bindings of one spelling share a line (open finding
+   imported-name-same-line-homonym; such tokens are kept out of the comparison). *)
+Theorem C02_project_query_independent :
+  forall (lib main : modctx) (init call libname : ident) (ts : list (bool * tok)) (q o : bool * tok),
+    In o (occurrences2 lib main init call libname ts q) ->
+    occurrences2 lib main init call libname ts o = occurrences2 lib main init call libname ts q.
+Proof. exact project_query_independent. Qed.
+Print Assumptions C02_project_query_independent.
+
+Theorem C02_project_query_reflexive :
+  forall (lib main : modctx) (init call libname : ident) (ts : list (bool * tok)) (q : bool * tok) (t : tgt),
+    In q ts ->
+    tgt_of (pyname2_at lib main init call libname (fst q) (snd q)) = Some t ->
+    In q (occurrences2 lib main init call libname ts q).
+Proof. exact project_query_reflexive. Qed.
+Print Assumptions C02_project_query_reflexive.
+
+(* same_pyname in a project is "resolve to the same thing" *)
+Theorem C02_project_same_pyname :
+  forall a b : pn2, same2 a b = true <-> exists t, tgt_of a = Some t /\ tgt_of b = Some t.
+Proof. exact same2_true. Qed.
+Print Assumptions C02_project_same_pyname.
+
+Example C02_example_project_occurrences :
+  ex2_occs 1 = Some [1; 70]%N
+  /\ ex2_occs 24 = Some [24; 76]%N
+  /\ ex2_occs 12 = Some [11; 12; 90]%N
+  /\ ex2_occs 54 = Some [15; 35; 54]%N
+  /\ ex2_occs 38 = Some [38; 58]%N
+  /\ ex2_occs 100 = Some [47; 20; 100; 118; 130]%N
+  /\ ex2_occs 122 = Some [55; 122]%N
+  /\ ex2_occs 104 = Some [73; 91; 104]%N
+  /\ ex2_occs 66 = Some [2; 66; 86; 126]%N.
+Proof. exact example_project_occurrences. Qed.
+Print Assumptions C02_example_project_occurrences.
